@@ -199,10 +199,9 @@ class Check:
         self.cov = {}
         self.assumptions = []
         self.trusted = []
-        self.case_dir = CASES / pid
+        # one directory per run, so that two runs of the same property (quick + thorough, or a seeded tree) never clash
+        self.case_dir = CASES / pid / str(os.getpid())
         self.case_dir.mkdir(parents=True, exist_ok=True)
-        for f in self.case_dir.glob("*"):
-            f.unlink()
         kf = ROOT / "known_findings.json"
         self.known_findings = json.loads(kf.read_text()).get("findings", []) if kf.exists() else []
         self.gate = {"obligations": 0, "discharged": 0}
@@ -403,6 +402,10 @@ class Check:
         }
         EVIDENCE.mkdir(parents=True, exist_ok=True)
         (EVIDENCE / f"{self.pid}.json").write_text(json.dumps(ev, indent=1, default=str))
+        if not os.environ.get("VERIF_KEEP_CASES"):
+            import shutil
+
+            shutil.rmtree(self.case_dir, ignore_errors=True)
         for kf in self.known:
             print(f"KNOWN-FINDING: property={self.pid} {kf['id']}: {kf['what']}")
         for desc, path, no_input in self.violations:
